@@ -587,8 +587,25 @@ int main(int argc, char** argv) {
     try {
       if (kind == "cycle")
         treatCycle(b, c, r, beh == "VfHyperGL");
-      else if (kind == "ps" || kind == "pslog")
-        treatPlaneStress(b, c, r, kind == "ps");
+      else if (kind == "ps") {
+        // every request of the strain-driven hypotheses, the axial stretch travelling through the state variable (also in the
+        // finite differences: a perturbation of the axial component of F perturbs the imposed axial strain)
+        PS.on = true;
+        PS.log = false;
+        PS.axis = b.N == 1 ? 1 : 2;
+        try {
+          treatPoint(b, c, r, true);
+          const M3 F0 = fromRowMajor(c["F0"].asInts()), F1 = fromRowMajor(c["F1"].asInts());
+          call(b, F0, F1, zeros(), 0, 0, 0., 2.0 * double(c["l2"].asInt()), double(c["mu"].asInt()), 0);
+          const auto e = vp::exact(2 * PS.iv1, 1.0, 1e-8 * std::max(1.0, std::fabs(2 * PS.iv1)));
+          r.set("ezz2", Json(e.q)).set("etight", Json(e.tight));
+        } catch (...) {
+          PS.on = false;
+          throw;
+        }
+        PS.on = false;
+      } else if (kind == "pslog")
+        treatPlaneStress(b, c, r, false);
       else
         treatPoint(b, c, r, kind == "gl");
     } catch (std::exception& e) {
